@@ -634,8 +634,9 @@ def kernel_shape_sweeps(run, rng, thorough, lib_ser, shim_omp, intensify):
                               dict(info, frequencies=freqs.tolist(), frequency_points=fpts.tolist(), coef=coef.tolist()))
     # thermal properties: many q-points
     temps = np.linspace(0, 500, 6)
-    fr = r.uniform(0.001, 0.05, size=(400, 9))
-    wts = r.randint(1, 5, size=400).astype("int64")
+    nq_ = 2500      # more q-points than common block sizes (1024, 2048), unequal weights
+    fr = r.uniform(0.001, 0.05, size=(nq_, 9))
+    wts = r.randint(1, 9, size=nq_).astype("int64")
     outs = {}
     for label, shim, t in [("omp-1", shim_omp, 1)] + [("omp-%d#%d" % (t, k), shim_omp, t) for t in (16, 8, 3) for k in range(reps)] + [("ser", lib_ser, 1)]:
         U.set_threads(t)
@@ -646,8 +647,23 @@ def kernel_shape_sweeps(run, rng, thorough, lib_ser, shim_omp, intensify):
     for label, props in outs.items():
         if not np.array_equal(props, outs["omp-1"]):
             run.violation("phonopy._phonopy.thermal_properties", "thread-count-dependent" if label != "ser" else "build-dependent",
-                          "thermal properties of 400 q-points differ bitwise between 1 OpenMP thread and %s" % label, dict(config=label, seeded=True))
+                          "thermal properties of %d q-points differ bitwise between 1 OpenMP thread and %s" % (nq_, label), dict(config=label, seeded=True))
             break
+    # closed forms (vectorised), all q-points with their own weights
+    KB = 8.6173382568083159e-05
+    want = np.zeros((len(temps), 3))
+    for j, T in enumerate(temps):
+        if T > 0:
+            x = fr / (KB * T)
+            w_ = wts[:, None]
+            want[j, 0] = (KB * T * np.log(-np.expm1(-x)) * w_).sum()
+            want[j, 1] = ((x * KB / np.expm1(x) - KB * np.log(-np.expm1(-x))) * w_).sum()
+            want[j, 2] = (KB * x * x * np.exp(-x) / np.expm1(-x) ** 2 * w_).sum()
+    run.count("thermal-properties large-mesh reference comparisons", section="oracle")
+    if not np.allclose(outs["omp-1"], want, rtol=1e-9, atol=1e-12):
+        run.violation("phonopy._phonopy.thermal_properties", "differs-from-reference",
+                      "thermal properties of %d q-points with unequal weights differ from the closed forms (relative %.3g)" % (nq_, float(np.abs(outs["omp-1"] - want).max() / np.abs(want).max())),
+                      dict(num_qpoints=nq_, num_bands=9, temperatures=temps.tolist(), seeded=True))
     U.set_threads(4)
 
 
